@@ -69,6 +69,11 @@ CHECKS = {
   text="Decided: every pooled connection is created with the shared prepared cache (all connPool literals, connect(), ConnectClient, both proxy session configs, both pool creations of a session); on a connection with a cache every RESULT passes the cache update before delivery and every ERROR passes the UNPREPARED interception; store and load use the same key function of the backend's id; a re-prepare's outcome re-executes (error => next host, else same host); raw body bytes are read directly only when the header says they are not compressed; re-prepare frames are private copies.",
   note="Not covered: backend prepared state, LRU eviction, version/compression of the replayed PREPARE frame.",
   ref="DESIGN.md §4 C08"),
+ "C06": dict(
+  technique="static analysis: assume-guarantee property simulation over the recursive classifier family (err=>false, false-is-sticky), atom-assignment simulation of the function rule, constant folding of the term-type rules over all term types, loop progress / end-of-input termination by simulation, bounds-guard panic inventory, save/restore field agreement of the lexer",
+  text="Structural necessary conditions only (the verdict for every statement of the grammar is NOT decided): every classifier function returns false with an error and returns false once any element on the path was classified non-idempotent; now()/uuid() unqualified or in keyspace system is never idempotent and the table contains both; additive update operations are idempotent only for set/map/udt and tuple literals and delete-by-element rules hold for every term type; INSERT/UPDATE/DELETE look for IF up to the terminator and return false when seen; every parser loop consumes a token per iteration and exits at end of input; no panic site is reachable from the entry points; rewind() restores everything next() writes; identifiers are compared with CQL case/quote rules.",
+  note="Trusted: the ragel-generated scanner function. Not covered: soundness of the verdict over all CQL statements, lexer invariance under whitespace/terminators (inputs quantifier: out of reach of this technique).",
+  ref="DESIGN.md §4 C06"),
 }
 
 NOT_YET = "check not built yet in this round (see DESIGN.md §4 for the planned structural rules)"
